@@ -180,10 +180,25 @@ def _iterator_form_r05b(ctx, a, fn):
     tw = [z for z in flow.subtrees(src) if z[0] == 'call' and sg(z[1]).endswith('Iterator::take_while')]
     zp = [z for z in flow.subtrees(src) if z[0] == 'call' and sg(z[1]).endswith('Iterator::zip')]
     sk = [z for z in flow.subtrees(src) if z[0] == 'call' and sg(z[1]).endswith('Iterator::skip')]
-    if not (len(tw) == 1 and len(zp) == 1 and len(sk) == 1):
+    if len(zp) != 1:
         return False
+    # the start of the run: `.skip(start)` or a sub-slice `chunks[start..]`
+    start = None
+    if len(sk) == 1:
+        start = sk[0][2][1]
+    else:
+        sl_ = [z for z in flow.subtrees(zp[0][2][0]) if z[0] == 'index' and flow.mentions(z[1], lambda y: y[0] == 'field' and y[2] == 'chunks') and z[2][0] == 'agg' and 'Range' in z[2][2]]
+        if len(sl_) == 1:
+            start = dict(sl_[0][2][3]).get('start')
+    if start is None:
+        return False
+    if len(tw) != 1:
+        # a pipeline that counts something else than the matching *prefix* (e.g. `filter(..).count()` counts every aligned
+        # equal pair, also behind a mismatch)
+        others = sorted({sg(z[1]).split('::')[-1] for z in flow.subtrees(src) if z[0] == 'call' and sg(z[1]).startswith('core::iter::traits::iterator::Iterator::')} - {'zip', 'skip', 'count'})
+        ctx.fail('R05b', fn, 'hash guard', a.loc(cnt[0]), 'the reported run length is not the length of the matching prefix: the pipeline counts through %s instead of take_while, so it also counts matches behind a mismatch (an answer can cover chunks whose hashes differ from the query)' % (others or ['(nothing)']))
+        return True
     ok_zip = flow.mentions(zp[0][2][0], lambda z: z[0] == 'field' and z[2] == 'chunks') and flow.mentions(zp[0][2][1], lambda z: z[0] == 'param' and z[2] == 'query_hashes')
-    start = sk[0][2][1]
     cl = [z for z in flow.subtrees(tw[0][2][1]) if z[0] == 'agg' and z[1] == 'closure']
     okc = False
     if cl:
